@@ -40,18 +40,19 @@ def scenarios(tier):
 
 
 def plan(tier, gen):
+    """(request budget, death budget, deviation bound) of a burst in generation `gen`."""
     if tier == 'quick':
-        return {1: (1, 1)}.get(gen, (1, 0))
-    return {1: (1, 2), 2: (1, 1)}.get(gen, (1, 0))
+        return {1: (1, 1, 2)}.get(gen, (1, 0, 1))
+    return {1: (1, 1, 2), 2: (1, 1, 1)}.get(gen, (1, 0, 1))
 
 
 def bound(tier, scn, gen=1):
-    return sum(plan(tier, gen))
+    return plan(tier, gen)[2]
 
 
 def bounds(tier):
     return {'generations': GRAPH[tier], 'watchers': 'a (n=2, hooks/faults), b (n=1), c added on request',
-            'burst_per_generation(requests,deaths)': {str(g): plan(tier, g) for g in range(1, GRAPH[tier] + 1)},
+            'burst_per_generation(requests,deaths,bound)': {str(g): plan(tier, g) for g in range(1, GRAPH[tier] + 1)},
             'max_retry': 2, 'graceful_timeout': G}
 
 
@@ -96,7 +97,7 @@ def run(scn, ch):
         return world
 
     def budgets(g):
-        r, d = plan(tier, g)
+        r, d, _ = plan(tier, g)
         return {'req': r, 'die': d}
 
     def on_quiescent(world, res, gen, win):
